@@ -155,11 +155,13 @@ Example C01_real_events_parse :
 Proof. exact real_events_parse_rich. Qed.
 
 (* ---- the full statement is false of the faithful models: one witness per guard clause ------- *)
-(* clause `negb (v_nillable v)` / `negb (m_nillable m)` (known finding C01-F1): A(b=B(x=1)) with b
-   nillable comes back as A(b=None); with the nillable flags cleared the very same metadata and
-   instance are inside the guards *)
+(* clause `has_content` of fits for an instance in a nillable field (known finding C01-F1):
+   A(b=B(x=1)) with b nillable - B(x=1) is written <b x="1" xsi:nil="true"/>, an element without
+   content - comes back as A(b=None); the metadata is inside wf_model, and with the nillable flags
+   cleared the very same instance fits *)
 Theorem C01_nil_conflation_refuted :
-  wf_model u_nil root_nil = false
+  wf_model u_nil root_nil = true
+  /\ fits conv_c05 u_nil ok_c05 py_isspace 2 root_nil o_nil = false
   /\ wf_model (clear_nil u_nil) root_nil = true
   /\ fits conv_c05 (clear_nil u_nil) ok_c05 py_isspace 2 root_nil o_nil = true
   /\ composition_nil = Parser.Ok (VObj root_nil [([98%N], VNone)]) []
